@@ -18,6 +18,10 @@ components of `ResolveRefsIn`) and `loadDoc` (`loadFromURIInternal` + `loadFromD
   `(doc, documentPath)`; path items re-assign `(doc, documentPath)` instead.
 * reads performed before an error are part of the outcome (the log is kept on every path).
 
+Path items have no `Value`: the code tests `!pathItem.isEmpty()` instead; the model treats a path item
+that was assigned from a loaded/drilled one as set (path-item files and targets are non-empty in the
+generated inputs).
+
 Abstracted (inputs of the model, validated by the differential run): `url.Parse` of a reference text
 (the case carries scheme/host/path/fragment), JSON/YAML parsing (`parses`), the position tables of the
 resolvers (a node's `kids` are listed in the order the resolver of its kind visits them), the typed
